@@ -210,9 +210,9 @@ CHECKS["C16"] = {
     "prepare": probes.prepare,
     "assumptions": ["ast definitions are built directly by the harness (not through the SDL parser); arbitrary schemas are outside the bound"],
     "harnesses": [
-        {"pkg": "graphql/introspection", "harness": "Harness_C16_fields", "reach": ["c16.fields"], "workers": 8, "quick": {"sample_models": 30, "sample_every": 13}, "thorough": {"params": {"defaults": 10}, "workers": 14},
+        {"pkg": "graphql/introspection", "harness": "Harness_C16_fields", "reach": ["c16.fields"], "workers": 8, "quick": {"sample_models": 30, "sample_every": 13}, "thorough": {"params": {"defaults": 11}, "workers": 14},
          "what": "Type.Fields: 2 fields x 2 arguments, each with symbolic @deprecated (+/- reason), description, default value, includeDeprecated"},
-        {"pkg": "graphql/introspection", "harness": "Harness_C16_inputsEnums", "reach": ["c16.inputs"], "workers": 8, "quick": {"sample_models": 30, "sample_every": 13}, "thorough": {"params": {"defaults": 10}, "workers": 14},
+        {"pkg": "graphql/introspection", "harness": "Harness_C16_inputsEnums", "reach": ["c16.inputs"], "workers": 8, "quick": {"params": {"defaults": 3, "defaults:in.q": 11}, "sample_models": 30, "sample_every": 29}, "thorough": {"params": {"defaults": 11}, "workers": 14},
          "what": "InputFields, EnumValues(includeDeprecated), Schema.Directives/directiveFromDef with symbolic @deprecated on each element"},
         {"probe": "core", "harness": "Harness_C16_disabled", "setup": "Setup_C16_disabled", "reach": ["c16.enabled", "c16.disabled"], "workers": 6, "sched": "first",
          "configs_quick": ["single"], "configs_thorough": ["single", "follow", "funcsyn"], "quick": {"sample_models": 20},
@@ -300,8 +300,8 @@ CHECKS["C05"]["harnesses"].append(
 
 CHECKS["C15"]["harnesses"].append(
     dict(_HTTP, harness="Harness_C15_server", setup="Setup_C15_server", reach=["c15.server"], workers=8,
-         quick={"params": {"hist": 2}, "sample_models": 40, "sample_every": 5}, thorough={"params": {"hist": 3, "texts": 4}, "sample_models": 60, "sample_every": 47, "workers": 14},
-         what="histories of 2 [3, over the first 4 texts] HTTP requests through one Server (POST/GET transports with the recycled parameter object, APQ extension, executor) over 7 request kinds x 2 texts incl. bodies that fail decoding after query/extensions were read, against the model hash -> text"))
+         quick={"params": {"hist": 2}, "sample_models": 40, "sample_every": 5}, thorough={"params": {"hist": 3, "texts": 4, "kinds": 10}, "sample_models": 60, "sample_every": 47, "workers": 14},
+         what="histories of 2 [3, over the first 4 texts] HTTP requests through one Server (POST/GET transports with the recycled parameter object, APQ extension, executor) over 12 request kinds (thorough histories of 3: the first 10) incl. text with its own / another hash over GET, and bodies that fail decoding after query/extensions were read, against the model hash -> text"))
 
 CHECKS["C14"]["harnesses"].append(
     {"pkg": "graphql/handler/extension", "harness": "Harness_C14_variables", "setup": "Setup_C14_walk", "reach": ["c14.vars.accepted", "c14.vars.rejected"], "workers": 6,
@@ -654,7 +654,7 @@ CHECKS["C12"]["harnesses"].append(
 # round 13
 CHECKS["C15"]["harnesses"].append(
     dict(_HTTP, harness="Harness_C15_server", setup="Setup_C15_server", reach=["c15.server"], workers=8, tag="-cancelled",
-         quick={"params": {"hist": 2, "cancelled": 1}, "sample_models": 20, "sample_every": 11}, thorough={"params": {"hist": 3, "texts": 4, "cancelled": 1}, "sample_models": 30, "sample_every": 97, "workers": 14},
+         quick={"params": {"hist": 2, "cancelled": 1}, "sample_models": 20, "sample_every": 11}, thorough={"params": {"hist": 2, "cancelled": 1}, "sample_models": 30, "sample_every": 97, "workers": 14},
          what="the same histories with every request arriving on an already cancelled context: the verdict on text and hash, what executes and what the registry holds are unchanged"))
 CHECKS["C09"]["harnesses"].append(
     {"pkg": "graphql/handler/extension", "harness": "Harness_C15_apq", "workers": 4, "quick": {"sample_models": 60},
@@ -662,10 +662,10 @@ CHECKS["C09"]["harnesses"].append(
      "what": "a request carrying a text executes that text or nothing: AutomaticPersistedQuery.MutateOperationParameters over 4 registry pre-states x 3 texts x 11 extension shapes never replaces a text the request carries (shared with C15)"})
 CHECKS["C09"]["harnesses"].append(
     dict(_HTTP, harness="Harness_C15_server", setup="Setup_C15_server", reach=["c15.server"], workers=8,
-         quick={"params": {"hist": 2}, "sample_models": 20, "sample_every": 11}, thorough={"params": {"hist": 3, "texts": 4}, "sample_models": 30, "sample_every": 97, "workers": 14},
+         quick={"params": {"hist": 2}, "sample_models": 20, "sample_every": 11}, thorough={"params": {"hist": 2}, "sample_models": 30, "sample_every": 97, "workers": 14},
          what="histories of 2 [3] HTTP requests through one Server with the persisted-query registry: a request carrying a text executes exactly that text or is refused, a hash-only request executes exactly the text registered under it, whatever was registered before (shared with C15)"))
 CHECKS["C03"]["harnesses"].append(
-    {"pkg": "graphql/executor", "harness": "Harness_C03_history", "setup": "Setup_C03_history", "reach": ["c03.history.accepted", "c03.history.refused"], "workers": 8, "quick": {"sample_models": 30, "sample_every": 7},
+    {"pkg": "graphql/executor", "harness": "Harness_C03_docHistory", "setup": "Setup_C03_docHistory", "reach": ["c03.dochistory.accepted", "c03.dochistory.refused"], "workers": 8, "quick": {"sample_models": 30, "sample_every": 7},
      "what": "one executor with a query cache (map / LRU) serves two requests of the 14-request corpus in a row (same text under another operation name or variables, or another text; the first dispatched or not): the second is accepted iff valid, as the operation it names, on the whole document it sent; nothing runs for a refused one"})
 CHECKS["C05"]["harnesses"].append(
     {"probe": "core", "harness": "Harness_C05_streamCancel", "setup": "Setup_C05_streamCancel", "reach": ["c05.streamcancel"], "workers": 6, "sched_confirm": True, "native_retries": 300,
@@ -676,3 +676,17 @@ CHECKS["C06"]["harnesses"].append(
      "configs_quick": ["wl1"], "configs_thorough": ["single", "wl1", "wl2", "follow"],
      "quick": {"params": {"budget": 1}}, "thorough": {"params": {"budget": 1}},
      "what": "the same with a mutation root field that is a list of objects with nullable elements (element resolvers on goroutines of their own) before the next root field, one deviation, every schedule, under worker limits 0/1/2 and both layouts"})
+
+# round 14
+CHECKS["C03"]["harnesses"].append(
+    {"pkg": "graphql/executor", "harness": "Harness_C03_concurrentDispatch", "setup": "Setup_C03_concurrentDispatch", "reach": ["c03.concurrentdispatch"], "workers": 6, "race": True, "sched_confirm": True, "native_retries": 300,
+     "quick": {"sample_models": 10, "sample_every": 7},
+     "what": "two accepted requests (operations A and B of two texts or of one) dispatched concurrently through one Executor with 1..2 operation interceptors that lock before calling on, every interleaving at synchronisation points, race check: each interceptor once per operation, each operation executed once, each request answered with its own operation's response"})
+
+# a harness name stands for one function: results, replays and evidence are keyed by it
+_where = {}
+for _p, _c in CHECKS.items():
+    for _h in _c["harnesses"]:
+        _where.setdefault(_h["harness"], set()).add(_h.get("pkg") or "probe:" + _h.get("probe", ""))
+_dups = {k: v for k, v in _where.items() if len(v) > 1}
+assert not _dups, "harness names defined in two places: %r" % _dups
